@@ -424,3 +424,167 @@ def c06_6(run):
 from obligations import c07 as _c07
 obligation('C06', 'C06-7 the commitments PrepareProposal generates are the canonical ones (rollups in ascending id order, submissions then deposits): exactly what the block builder recomputes after execution, so an honest proposal is not rejected there (= C07-1)')(_c07.c07_1)
 obligation('C06', 'C06-8 the block builder used after executing a proposal accepts exactly the canonical commitments (= C07-4)')(_c07.c07_4)
+
+
+# ----------------------------------------------------------------------------------------------------------------- C06-9
+@obligation('C06', 'C06-9 prepare_proposal assembly: the response is commitments, upgrade hashes (if any), extended commit info (if enabled; the empty one when the real one does not fit), then exactly the included transactions in order, and its total size never exceeds max_tx_bytes')
+def c06_9(run):
+    from obligations import c05 as C5
+    R = re.compile
+    wire = {True: 68, False: 64}
+    cfg = {}
+    LIM = z3.BitVecVal(1 << 62, 64)
+
+    def bytes_obj(tag, ln):
+        b = Obj('bytes::Bytes', kind='opaque'); b.attrs['tag'] = tag; b.attrs['symlen'] = ln
+        return b
+
+    def h_encode(ctx):
+        item = ctx.ex.deref_val(ctx.st, ctx.args[0])
+        d = item.discr if isinstance(item.discr, str) else (ctx.ex.adts.variant_name(item.ty, item.discr) if isinstance(item.discr, int) else None)
+        if d == 'UpgradeChangeHashes':
+            return [(None, bytes_obj('upgrade_hashes', z3.BitVec('upgrade_hashes_len', 64)))]
+        if d == 'ExtendedCommitInfo':
+            inner = ctx.ex.deref_val(ctx.st, item.fields[('ExtendedCommitInfo', 0)])
+            if isinstance(inner, Obj) and inner.attrs.get('tag') == 'empty':
+                return [(None, bytes_obj('eci_empty', z3.BitVec('eci_empty_len', 64)))]
+            return [(None, bytes_obj('eci_full', z3.BitVec('eci_full_len', 64)))]
+        raise Inconclusive(f'DataItem::encode of unexpected variant {item.discr!r} of {item.ty}')
+
+    def h_pre(ctx):
+        st = ctx.st; okv = z3.Bool('pre_execute_ok'); has = z3.Bool('upgrade_due')
+        st.log.append(('pre_execute',))
+        one = lambda s: ok(M.new_vec('Vec<ChangeHash>', [Obj('ChangeHash', kind='opaque')]))
+        return [(None, M.thunk_future(lambda ex, s2, fut: [(z3.And(okv, has), one), (z3.And(okv, z3.Not(has)), (lambda s: ok(M.new_vec('Vec<ChangeHash>', [])))), (z3.Not(okv), (lambda s: err()))]))]
+
+    def h_ve(ctx):
+        okv = z3.Bool('ve_query_ok')
+        return [(None, M.thunk_future(lambda ex, s2, fut: [(okv, ok(z3.Bool('vote_extensions_enabled'))), (z3.Not(okv), (lambda s: err()))]))]
+
+    def h_handler(ctx):
+        okv = z3.Bool('commit_info_ok')
+        mk = lambda s: ok(Obj('ExtendedCommitInfoWithCurrencyPairMapping', kind='opaque'))
+        return [(None, M.thunk_future(lambda ex, s2, fut: [(okv, mk), (z3.Not(okv), (lambda s: err()))]))]
+
+    def h_txexec(ctx):
+        st = ctx.st; ex = ctx.ex
+        bsc = ex.deref_val(st, ctx.args[1])
+        cur = B.fld(ex, st, bsc, 'current_size_cometbft', 'usize'); mx = B.fld(ex, st, bsc, 'max_size_cometbft', 'usize')
+        st.log.append(('tx_execution', cur, mx))
+        k = cfg['ntx']; lens = [z3.BitVec(f'tx_len_{i}', 64) for i in range(k)]
+        tot = z3.ZeroExt(8, cur)
+        for l in lens:
+            tot = tot + z3.ZeroExt(8, l)
+        # contract of prepare_proposal_tx_execution (C06-2 + C06-6): every included transaction fitted the remaining CometBFT budget when it was added
+        fits = z3.And(z3.ULE(tot, z3.ZeroExt(8, mx)), *[z3.ULT(l, LIM) for l in lens])
+        okv = z3.Bool('tx_execution_ok')
+
+        def mk(s):
+            txs = []
+            for i in range(k):
+                t = Obj('Arc<CheckedTransaction>', kind='arc'); t.attrs['idx'] = i; c = Obj('CheckedTransaction'); c.attrs['idx'] = i; t.fields[('in', 0)] = c; txs.append(t)
+            return ok(M.new_vec('Vec<Arc<CheckedTransaction>>', txs))
+        return [(None, M.thunk_future(lambda ex2, s2, fut: [(z3.And(okv, fits), mk), (z3.Not(okv), (lambda s: err()))]))]
+
+    def h_encoded_bytes(ctx):
+        tx = ctx.ex.deref_val(ctx.st, ctx.args[0]); i = tx.attrs.get('idx')
+        return [(None, B.cell(bytes_obj(f'tx{i}', z3.BitVec(f'tx_len_{i}', 64))))]
+
+    def h_commit(ctx):
+        flag = cfg['flag']
+        a, b = bytes_obj('commitment0', z3.BitVec('commitment0_len', 64)), bytes_obj('commitment1', z3.BitVec('commitment1_len', 64))
+        ctx.st.pc.append(a.attrs['symlen'] + b.attrs['symlen'] == z3.BitVecVal(wire[flag], 64)); ctx.st.pc += [z3.ULE(a.attrs['symlen'], 68), z3.ULE(b.attrs['symlen'], 68)]
+        o = Obj('GeneratedCommitments', kind='opaque'); o.attrs['parts'] = [a, b]
+        return [(None, o)]
+
+    def h_commit_iter(ctx):
+        o = ctx.ex.deref_val(ctx.st, ctx.args[0])
+        it = Obj('Iter', kind='iter'); it.attrs['src'] = M.new_vec('Vec', list(o.attrs['parts'])); it.attrs['pos'] = 0; it.attrs['mode'] = 'val'
+        return [(None, it)]
+
+    def h_set_prepared(ctx):
+        ctx.st.log.append(('set_prepared', ctx.args[2]))
+        okv = z3.Bool('set_prepared_ok')
+        return [(okv, ok(())), (z3.Not(okv), (lambda s: err()))]
+
+    def h_bytes_len(ctx):
+        v = ctx.ex.deref_val(ctx.st, ctx.args[0])
+        if isinstance(v, Obj) and 'symlen' in v.attrs:
+            return [(None, v.attrs['symlen'])]
+        raise Inconclusive(f'len of untracked buffer {v!r}')
+    ident = lambda ctx: [(None, ctx.ex.deref_val(ctx.st, ctx.args[0]))]
+    hooks = [
+        (R(r'(^|::)App::update_state_for_new_round$'), lambda ctx: (ctx.st.log.append(('reset',)), [(None, ())])[1]),
+        (R(r'(^|::)App::pre_execute_transactions$'), h_pre),
+        (R(r'DataItem::encode$'), h_encode),
+        (R(r'(^|::)App::uses_data_item_enum$'), lambda ctx: [(None, z3.BoolVal(cfg['flag']))]),
+        (R(r'(^|::)App::vote_extensions_enabled$'), h_ve),
+        (R(r'ProposalHandler::prepare_proposal(::<.*>)?$'), h_handler),
+        (R(r'ExtendedCommitInfoWithCurrencyPairMapping::(empty|into_raw)$'), lambda ctx: [(None, Obj('eci', kind='opaque'))]),
+        (R(r'Message>::encode_to_vec$'), lambda ctx: [(None, Obj('Vec<u8>', kind='opaque'))]),
+        (R(r'^<(bytes::)?Bytes as From<Vec<u8>>>::from$|^<Vec<u8> as Into<(bytes::)?Bytes>>::into$'), lambda ctx: [(None, bytes_obj('eci_payload', z3.BitVec('eci_payload_len', 64)))]),
+        (R(r'^(bytes::)?Bytes::new$'), lambda ctx: [(None, bytes_obj('empty', z3.BitVecVal(0, 64)))]),
+        (R(r'^(bytes::)?Bytes::len$'), h_bytes_len),
+        (R(r'(^|::)App::prepare_proposal_tx_execution$'), h_txexec),
+        (R(r'get_cached_block_deposits$'), lambda ctx: [(None, M.new_map('HashMap<RollupId, Vec<Deposit>>', []))]),
+        (R(r'^(proposal::commitment::)?generate_rollup_datas_commitment::<.*>$'), h_commit),
+        (R(r'GeneratedCommitments<.*> as (std::iter::)?IntoIterator>::into_iter$'), h_commit_iter),
+        (R(r'CheckedTransaction::encoded_bytes$'), h_encoded_bytes),
+        (R(r'^<(bytes::)?Bytes as (std::clone::)?Clone>::clone$'), ident),
+        (R(r'^<tendermint::abci::(request|response)::PrepareProposal as (std::clone::)?Clone>::clone$'), lambda ctx: [(None, ctx.ex.copy_val(ctx.ex.deref_val(ctx.st, ctx.args[0])))]),
+        (R(r'set_prepared_proposal$'), h_set_prepared),
+        (R(r'(^|::)Metrics::\w+$'), lambda ctx: [(None, ())]),
+        (R(r'(^|::)Height::value$|^<tendermint::block::Height as Into<u64>>::into$'), ident),
+    ]
+    sc = {k: v for k, v in C5.SCALARS.items()}
+    n_ok = 0
+    for flag in (True, False):
+        for ntx in (0, 1, 2):
+            cfg['flag'] = flag; cfg['ntx'] = ntx
+            ex = loader.load(['astria-sequencer', 'astria-core'], scalar_types=sc, dep_adts=['tendermint'], hooks=hooks)
+            ex.const_params = {'USES_DATA_ITEM_ENUM': z3.BoolVal(flag)}
+            cands = [n for n in ex.fns if n.endswith('::prepare_proposal') and 'closure' not in n and ex.impl_self(n) == (None, 'App')]
+            if len(cands) != 1:
+                raise Inconclusive(f'App::prepare_proposal not found: {cands}')
+            mx = z3.BitVec('max_tx_bytes', 64)
+            llc = z3.Bool('local_last_commit_present')
+            lc = Obj('std::option::Option<tendermint::abci::types::ExtendedCommitInfo>'); lc.discr = z3.If(llc, z3.BitVecVal(1, 64), z3.BitVecVal(0, 64))
+            lc.fields[('Some', 0)] = B.struct(ex, 'tendermint::abci::types::ExtendedCommitInfo', round=z3.BitVec('round', 32))
+            req = B.struct(ex, 'tendermint::abci::request::PrepareProposal', max_tx_bytes=mx, local_last_commit=lc, height=z3.BitVec('height', 64))
+            app = B.struct(ex, 'app::App', execution_state=Obj('ExecutionStateMachine', kind='opaque'), metrics=B.cell(Obj('Metrics')), state=Obj('Arc<StateDelta<Snapshot>>', kind='arc'))
+            st = ex.start(cands[0], [B.cell(app), req, Obj('Storage', kind='opaque')])
+            st.pc += [z3.ULT(z3.BitVec(n_, 64), LIM) for n_ in ('upgrade_hashes_len', 'eci_full_len', 'eci_empty_len')]
+            for i, p in enumerate(run.explore(ex, st, poll=True, allow_havoc=(r'^Arguments::|fmt::', r'BlockData'))):
+                lab = f'[data-item enum {flag}, {ntx} included txs, path {i}]'
+                if p.kind != 'return':
+                    run.prove(f'no panic {lab}', p.pc, z3.BoolVal(False), detail=p.info); continue
+                kind, r = A.poll_result(p)
+                names = [e[0] for e in p.log]
+                run.sample({'flag': flag, 'ntx': ntx, 'path': i, 'result': kind, 'effects': names})
+                run.prove(f'the round is reset before anything else and exactly once {lab}', p.pc, z3.BoolVal(names[:1] == ['reset'] and names.count('reset') == 1))
+                if kind != 'Ok':
+                    continue
+                n_ok += 1
+                resp = ex.deref_val(p, r.fields[('Ok', 0)])
+                items = [ex.deref_val(p, x) for x in ex.deref_val(p, B.fld(ex, p, resp, 'txs', 'Vec<Bytes>')).attrs['items']]
+                tags = [it.attrs.get('tag') for it in items]
+                total = z3.BitVecVal(0, 72)
+                for it in items:
+                    total = total + z3.ZeroExt(8, it.attrs['symlen'])
+                up, ve = z3.Bool('upgrade_due'), z3.Bool('vote_extensions_enabled')
+                exp_fixed = ['commitment0', 'commitment1']
+                has_up = 'upgrade_hashes' in tags; has_eci = any(t in ('eci_full', 'eci_empty') for t in tags)
+                expect = exp_fixed + (['upgrade_hashes'] if has_up else []) + ([t for t in tags if t in ('eci_full', 'eci_empty')][:1] if has_eci else []) + [f'tx{j}' for j in range(ntx)]
+                run.prove(f'response order: commitments, upgrade hashes iff an upgrade ran, commit info iff vote extensions are enabled, then the included transactions in order {lab}', p.pc,
+                          z3.And(z3.BoolVal(tags == expect), up == z3.BoolVal(has_up), ve == z3.BoolVal(has_eci)))
+                run.prove(f'total size of the response <= max_tx_bytes {lab}', p.pc, z3.And(mx >= 0, z3.ULE(total, z3.ZeroExt(8, mx))))
+                if 'eci_empty' in tags:
+                    # the empty one is used only when the real one did not fit on top of commitments (+ upgrade hashes)
+                    base = z3.BitVecVal(wire[flag], 72) + (z3.ZeroExt(8, z3.BitVec('upgrade_hashes_len', 64)) if has_up else z3.BitVecVal(0, 72))
+                    run.prove(f'the empty commit info replaces the real one only if the real one does not fit {lab}', p.pc, z3.UGT(base + z3.ZeroExt(8, z3.BitVec('eci_full_len', 64)), z3.ZeroExt(8, mx)))
+                sp = [e for e in p.log if e[0] == 'set_prepared']
+                run.prove(f'the fingerprint is taken of the response that is returned {lab}', p.pc,
+                          z3.BoolVal(len(sp) == 1 and [ex.deref_val(p, x).attrs.get('tag') for x in ex.deref_val(p, B.fld(ex, p, ex.deref_val(p, sp[0][1]), 'txs', 'Vec<Bytes>')).attrs['items']] == tags))
+    if not n_ok:
+        raise Inconclusive('vacuity: prepare_proposal never succeeds')
+    run.require_reached(*run.cur.reach)
